@@ -160,3 +160,19 @@ package filters
 //@ ensures left: forall(k, 0, len(a), result[k] == a[k])
 //@ ensures right: forall(k, 0, len(b), result[len(a)+k] == b[k])
 //@ ensures inputUnchanged: forall(k, 0, len(a), a[k] == old(a[k])) && forall(k, 0, len(b), b[k] == old(b[k]))
+
+// ---- sort / sort_natural: work on a fresh copy; the input array is never written (C15, C03)
+//@ func filters.sortFilter
+//@ props C15 C03 C01
+//@ panics nothing
+//@ assigns S$Val
+//@ ensures fresh: fresh(result) && len(result) == len(array)
+//@ ensures inputUnchanged: forall(k, 0, len(array), array[k] == old(array[k]))
+
+//@ func (filters.keySortable).Swap
+//@ props C15 C03 C01
+//@ panics nothing
+//@ assigns S$Val
+//@ requires inrange: 0 <= i && i < len(s.slice) && 0 <= j && j < len(s.slice)
+//@ ensures swapped: s.slice[i] == old(s.slice[j]) && s.slice[j] == old(s.slice[i])
+//@ ensures only: onlybase("S$Val", s.slice)
